@@ -184,6 +184,19 @@ extern "C" int __wrap_pthread_mutex_trylock(pthread_mutex_t* pm) {
     return 0;
 }
 
+// A timed lock may time out whenever the mutex is held by someone else ("the holder was slow" is always a legal schedule): it does so after the
+// other threads had one more chance to run. A free mutex is taken as by lock().
+extern "C" int __real_pthread_mutex_timedlock(pthread_mutex_t*, const struct timespec*);
+extern "C" int __wrap_pthread_mutex_timedlock(pthread_mutex_t* pm, const struct timespec* until) {
+    SimMutexObj* m = simObjFor(pm); if (!m) return __real_pthread_mutex_timedlock(pm, until);
+    int me = tlsId;
+    if (!S.active || me < 0) return 0;
+    schedPoint(true);
+    if (m->owner != -1 && m->owner != me) { schedPoint(true); if (m->owner != -1 && m->owner != me) { probe("timedlock_timed_out"); return ETIMEDOUT; } }
+    simMutexLock(m);
+    return 0;
+}
+
 // ------------------------------------------------------------------------------------------------ happens-before race detector
 struct Shadow { uintptr_t addr; uint32_t gen; int wt; uint32_t wc; uint32_t rc[MAXT]; };
 enum { SHADOW_BITS = 17, SHADOW_SIZE = 1 << SHADOW_BITS };
